@@ -205,8 +205,19 @@ class SimSocket:
     def setsockopt(self, *args):
         if self._closed:
             raise OSError(errno.EBADF, "Bad file descriptor")
+        if len(args) not in (3, 4) or (len(args) == 4 and args[2] is not None):
+            raise TypeError("setsockopt() takes (level, optname, value) or (level, optname, None, optlen)")
         self.opts.append(tuple(args))
         self._log("opt", tuple(args))
+        if len(args) == 3 and args[0] == _socket.SOL_SOCKET and args[1] == _socket.SO_RCVTIMEO and isinstance(args[2], (bytes, bytearray)):
+            # the kernel's own receive timeout: a blocking recv() (no Python-level timeout) that gets nothing for this long fails
+            # with EAGAIN; with a Python-level timeout the descriptor is polled and the option is never in play
+            import struct as _struct
+            try:
+                sec, usec = _struct.unpack("ll", bytes(args[2])[:_struct.calcsize("ll")])
+                self.rcvtimeo = sec + usec / 1e6
+            except _struct.error:
+                pass
 
     def getsockopt(self, *args):
         return 0
@@ -264,7 +275,11 @@ class SimSocket:
                     raise _sched.Deadlock("recv would block forever (no scheduler)")
                 self._log("recv", bufsize, "timeout")
                 raise _real_timeout("timed out")
-            ok = s.block(lambda: bool(c.rx) or c.client_shutdown, self._timeout, why=f"recv({bufsize}) conn{c.id}")
+            rcvtimeo = getattr(self, "rcvtimeo", 0) if self._timeout is None else 0
+            ok = s.block(lambda: bool(c.rx) or c.client_shutdown, rcvtimeo or self._timeout, why=f"recv({bufsize}) conn{c.id}")
+            if not ok and rcvtimeo:
+                self._log("recv", bufsize, "EAGAIN (SO_RCVTIMEO)")
+                raise BlockingIOError(errno.EAGAIN, "Resource temporarily unavailable")
             if not ok:
                 self._log("recv", bufsize, "timeout")
                 raise _real_timeout("timed out")
